@@ -123,7 +123,7 @@ let fmt_obs (c : case) (rs : res list) (s1 : cpu) : string =
   let pins = List.init 11 (fun i -> Printf.sprintf "%x" (int_of_z (sget s1.cbus.b_pin (z_of_int i)))) in
   let t = s1.cbus.b_tmr in
   let msgs = List.map (fun m -> hex_of_string (fmt_msg m)) s1.cbus.b_msgs in
-  Printf.sprintf "id=%s res=%s pc=%x ccr=%x er=%s opc=%x sum=%x exit=%x q=%s tm=%x,%x pin=%s md=%s msgs=%s%s"
+  Printf.sprintf "id=%s res=%s pc=%x ccr=%x er=%s opc=%x sum=%x exit=%x q=%s tm=%x,%x pin=%s md=%s msgs=%s con=%s%s"
     c.id
     (String.concat "," (List.map fmt_res rs))
     (int_of_z s1.pc) (int_of_z s1.ccr) (String.concat "," ers)
@@ -131,6 +131,7 @@ let fmt_obs (c : case) (rs : res list) (s1 : cpu) : string =
     (String.concat "," (List.map (fun v -> Printf.sprintf "%x" (int_of_z v)) s1.irq))
     (int_of_z t.t_state) (int_of_z t.t_presc)
     (String.concat "," pins) (String.concat ";" md) (String.concat "|" msgs)
+    (tohex_bytes (List.map int_of_z s1.console))
     (if c.pokefail then " pokefail=1" else "")
 
 (* ---- references per case kind ---- *)
@@ -277,24 +278,36 @@ let ref_port (c : case) : string * bool =
    Reference: FIFO of requests + boundary_ref + decode_ref/sem_ref. *)
 let ref_irq (c : case) : string * bool =
   let s = ref c.s0 and q = ref [] and ok = ref true in
+  let err = ref false and stopped = ref false in
   let classes = ref [] in
   List.iter (fun o ->
-      if !ok then begin
+      if !ok && not !stopped then begin
         (match o with
          | OIrq v -> q := !q @ [ v ]
          | OBnd -> (match boundary_ref !s !q with Some (s', q') -> s := s'; q := q' | None -> ok := false)
          | OStep ->
+           if is_mes_call !s then begin
+             if dom_mes !s then
+               (match mes_ref !s with
+                | Some s' -> s := s'
+                | None -> err := true)
+             else ok := false
+           end else
            (match ref_decode !s with
             | Some (i, len) when exec_dom data_ok i len !s ->
               (match sem_ref i len !s with Some s' -> s := s' | None -> ok := false)
             | _ -> ok := false)
          | _ -> ok := false);
-        classes := "ok" :: !classes
+        if !ok && not !stopped then classes := (if !err then "err" else "ok") :: !classes;
+        if !err then stopped := true
       end) c.ops;
   if not !ok then ("", false)
+  else if !err then (Printf.sprintf "resclass=%s" (String.concat "," (List.rev !classes)), true)
   else
-    (Printf.sprintf "resclass=%s %s q=%s ccrmask=bf" (String.concat "," (List.rev !classes)) (fmt_state_tokens c !s)
-       (String.concat "," (List.map (fun v -> Printf.sprintf "%x" (int_of_z v)) !q)), true)
+    (Printf.sprintf "resclass=%s %s q=%s ccrmask=bf msgs=%s con=%s" (String.concat "," (List.rev !classes)) (fmt_state_tokens c !s)
+       (String.concat "," (List.map (fun v -> Printf.sprintf "%x" (int_of_z v)) !q))
+       (String.concat "|" (List.map (fun m -> hex_of_string (fmt_msg m)) (!s).cbus.b_msgs))
+       (tohex_bytes (List.map int_of_z (!s).console)), true)
 
 (* kind=timer: histories of CPU writes to TCR/TCSR/TCORA/TCORB/TCNT of 8-bit timer channel 0, instruction
    charges (tick:n) and reads, against the tick-by-tick reference *)
@@ -377,6 +390,9 @@ let () =
           | "irq" ->
             let (r, d) = ref_irq c in
             Printf.fprintf oc "R id=%s %s\nD id=%s C10=%d\n" c.id r c.id (if d then 1 else 0)
+          | "mes" ->
+            let (r, d) = ref_irq c in
+            Printf.fprintf oc "R id=%s %s\nD id=%s C14=%d\n" c.id r c.id (if d then 1 else 0)
           | "timer" ->
             let (r, d) = ref_timer c in
             Printf.fprintf oc "R id=%s %s\nD id=%s C17=%d\n" c.id r c.id (if d then 1 else 0)
